@@ -445,7 +445,7 @@ def main(ctx):
 
     npts = len(euler_points(1, False, gen, bearings))
     ctx.lattice("euler-points", eunits, guarded(one_euler), expand=expand_euler,
-                bounds=dict(selectors=6, epochs=["J2000", "B1950"], points_per_conversion=npts,
+                fpstrict=True, bounds=dict(selectors=6, epochs=["J2000", "B1950"], points_per_conversion=npts,
                             cap_distances_deg=DISTS, bearings=bearings, seeded_points=gen))
 
     aunits = []
@@ -466,7 +466,7 @@ def main(ctx):
             yield ("arr", sel, b1950, form, w)
 
     ctx.lattice("euler-arrays", aunits, guarded(one_euler), expand=expand_earr,
-                bounds=dict(window=3, forms=["ndarray", "list", "epoch flag as numpy.bool_", "epoch flag as int", "empty arrays"]))
+                fpstrict=True, bounds=dict(window=3, forms=["ndarray", "list", "epoch flag as numpy.bool_", "epoch flag as int", "empty arrays"]))
 
     # pairs: every unordered pair of the points of a conversion
     pdists = DISTS
@@ -652,7 +652,7 @@ def main(ctx):
                 yield ("pair", q, u[1])
 
     ctx.lattice("sdss", sunits, guarded(one_sdss), expand=expand_sdss,
-                bounds=dict(eq_points=len(sd_pts), survey_points=len(sv_pts), pair_points=len(sd_pairs),
+                fpstrict=True, bounds=dict(eq_points=len(sd_pts), survey_points=len(sv_pts), pair_points=len(sd_pairs),
                             cap_distances_deg=DISTS, bearings=bearings))
 
     # ------------------------------------------------------------ unit vectors
@@ -824,7 +824,7 @@ def main(ctx):
                 yield ("pair", u[1], q, u[2])
 
     ctx.lattice("xyz", xunits, guarded(one_xyz), expand=expand_xyz,
-                bounds=dict(eq_points=len(xy_pts), vectors=len(VECS), pair_points=len(xy_pairs),
+                fpstrict=True, bounds=dict(eq_points=len(xy_pts), vectors=len(VECS), pair_points=len(xy_pairs),
                             stomp=[False, True], units=["deg", "rad (eq2xyz only: forward, non-modification, repeatability)"]))
 
     # ------------------------------------------------------------ rotate
@@ -941,7 +941,7 @@ def main(ctx):
                 yield ("pair", u, RPAIR[j], RPAIR[i])
 
     ctx.lattice("rotate", runits, guarded(one_rot), expand=expand_rot,
-                bounds=dict(angles=ANG, triples=len(runits), cap_distances_deg=RDISTS, bearings=bearings,
+                fpstrict=True, bounds=dict(angles=ANG, triples=len(runits), cap_distances_deg=RDISTS, bearings=bearings,
                             pair_points=len(RPAIR)))
 
     # ------------------------------------------------------------ shiftlon / shiftra
@@ -1036,7 +1036,7 @@ def main(ctx):
         yield (fname, "list", tuple(LONS[:4]), shift, wrap)
 
     ctx.lattice("shiftlon", shunits, guarded(one_shift), expand=expand_shift,
-                bounds=dict(lons=LONS, shifts=[repr(s) for s in SHIFTS], wrap=[True, False],
+                fpstrict=True, bounds=dict(lons=LONS, shifts=[repr(s) for s in SHIFTS], wrap=[True, False],
                             functions=["shiftlon", "shiftra"]))
 
     # ------------------------------------------------------------ chains (E2)
